@@ -113,7 +113,7 @@ fn shard(ctx: &Ctx, rep: &mut Report) {
 		return
 	}
 	let mut seeder = Rng::new(ctx.seed ^ 0xE2E2);
-	let max_cases = ctx.tier.pick(40, 600);
+	let max_cases = if mode == Mode::C13 { ctx.tier.pick(400, 6000) } else { ctx.tier.pick(40, 600) };
 	let mut i = 0u64;
 	while i < max_cases && ctx.elapsed_frac() < 0.8 {
 		let case_seed = seeder.next() >> 2;
@@ -122,7 +122,8 @@ fn shard(ctx: &Ctx, rep: &mut Report) {
 		rep.cases += 1;
 		ctx.checkpoint(rep);
 		i += 1;
-		if rep.get("violations_raw") >= 12 {
+		let stop = if mode == Mode::C13 { rep.get("violations_other_than_f6") >= 12 } else { rep.get("violations_raw") >= 12 };
+		if stop {
 			break
 		}
 	}
@@ -199,6 +200,11 @@ fn run_case(ctx: &Ctx, rep: &mut Report, mode: Mode, case_seed: u64, variant: u6
 				})))
 				.set("commits", J::i(recorded.states.len() as u64 - 1)),
 		);
+	}
+	if ctx.verbose {
+		for (i, a) in recorded.acts.iter().enumerate() {
+			eprintln!("  act {:3} shape {} synced {} commits {} :: {}", i, recorded.shape_before[i], recorded.synced_before[i], recorded.commits_before[i], a.show().chars().take(100).collect::<String>());
+		}
 	}
 	match mode {
 		Mode::C13 => mutate::run(ctx, rep, &recorded, &work, &mut rng, &desc, case_seed, variant),
@@ -797,7 +803,10 @@ fn fault_flow(
 	}
 	// shutdown terminates (the parent's watchdog turns a hang into a violation)
 	child::phase("drop after fault");
+	// the fault persists until restart: every file operation of the shutdown fails too
+	parity_db::set_number_of_allowed_io_operations(0);
 	drop(db);
+	parity_db::set_number_of_allowed_io_operations(usize::MAX);
 	interpose::stop();
 	// fault gone: reopen
 	child::phase("reopen after fault");
